@@ -87,6 +87,19 @@ def alphabet(F, rng):
         add(7, 'gen_trace_header', [tc - 300])
     add(1, 'get_tracefield_values', [0])
     add(7, 'gen_trace_header', [t1])
+    if F['mask'] and 0 in F['mask']:
+        # a survey with holes: stored trace k and cube position k part ways at the first hole, so whatever a reader remembers about
+        # headers or positions (hole-filtered or padded arrays, the populated-position mask) shows in the traces PAST it
+        past = min(tc - 1, list(F['mask']).index(0) + 1)
+        add(1, 'get_trace', [past, NONE, NONE])
+        add(1, 'gen_trace_header', [past])
+        add(6, 'get_trace', [past, NONE, NONE])
+        add(7, 'gen_trace_header', [past])
+        add(1, 'get_tracefield_values', [1])
+        add(1, 'read_variant_headers', [0])
+        add(8, 'read_variant_headers', [0])     # 8 = the emulator object itself (it is a reader too; its accessors are 3..7, 9)
+        add(8, 'read_variant_headers', [1])     # ... with the padded arrays: the accessors' answers must not change
+        add(8, 'get_tracefield_values', [0])
     # by line number / sample time: the same NUMBER looked up on different axes of one reader
     il, xl = F['il'], F['xl']
     ilv = [il['s'] + k * il['d'] for k in range(ni)]
@@ -148,7 +161,7 @@ class Objects:
                 emu = self.obj.get('emu')
                 if emu is None:
                     emu = self.obj['emu'] = seismic_zfp.open(self.fc.path, chunk_cache_size=self.K)
-                o = getattr(emu, EMU[r])
+                o = emu if r == 8 else getattr(emu, EMU[r])
         self.obj[r] = o
         return o
 
@@ -197,6 +210,15 @@ def do_call(objs, fc, c, ans):
             except BaseException as e:
                 return False, f'raise {type(e).__name__}'
             return bool(np.array_equal(got, exp)), f'array first={np.asarray(got).ravel()[:4].tolist()}'
+        if op == 'read_variant_headers':
+            # loads the header arrays (padded or not); what it returns is not judged, what the NEXT calls return is
+            try:
+                o.read_variant_headers(include_padding=bool(a[0]))
+            except BaseException as e:
+                if isinstance(e, (KeyboardInterrupt, SystemExit, MemoryError)):
+                    raise
+                return True, f'raise {type(e).__name__}'
+            return True, 'loaded'
         if c.get('slice'):          # accessor[n : n + 2 steps : step]: the same expression on a FRESH emulator is the reference
             import seismic_zfp
 
@@ -235,7 +257,7 @@ def history_result(fc, A, answers, h, preload, K):
                 sib = SgzReader(fc.sibling, preload=preload, chunk_cache_size=K)
         for step, i in enumerate(h):
             c = A[i - 1]
-            if sib is not None and c['op'] not in ('close', 'get_tracefield_values'):
+            if sib is not None and c['op'] not in ('close', 'get_tracefield_values', 'read_variant_headers'):
                 with env.quiet():
                     readcalls.invoke(sib, c['op'], c['a'])
             ok, detail = do_call(objs, fc, c, answers[i - 1])
@@ -271,7 +293,7 @@ def merge(run, res, clause='C15.same-result'):
 
 def files_for(run):
     fx = inputs.fixture_sgz()
-    keep = ('small_8bit.', 'small-irregular', 'small_8bit-8x8', 'small-2d') if run.tier == 'quick' else \
+    keep = ('small_8bit.', 'small_hole', 'small_8bit-8x8', 'small-2d') if run.tier == 'quick' else \
         ('small_8bit.', 'small-irregular', 'small_2bit-64x64', 'small_8bit-8x8', 'small-2d', 'small_hole', 'padding_6x7', 'small_4bit')
     fx = [f for f in fx if any(k in f for k in keep)]
     # z-slice layout with small blocks (16x16x4 at 32 bit) keeps the model run short in the quick tier
@@ -321,8 +343,8 @@ def run(run):
     jobs = []
     for fc in cases:
         A = alphabet(fc.F, rng)
-        answers = session.eval_calls([fc], [(0, c['op'] if c['op'] not in ('close', 'get_tracefield_values') else 'read_volume',
-                                             c['a'] if c['op'] not in ('close', 'get_tracefield_values') else []) for c in A], run)
+        answers = session.eval_calls([fc], [(0, c['op'] if c['op'] not in ('close', 'get_tracefield_values', 'read_variant_headers') else 'read_volume',
+                                             c['a'] if c['op'] not in ('close', 'get_tracefield_values', 'read_variant_headers') else []) for c in A], run)
         for K in ((1, 2, None) if (not quick or getattr(fc, 'sibling', None) is None) else (1, None)):
             jobs.append((fc, A, answers, K))
 
@@ -415,6 +437,6 @@ def replay(run, rep):
     case = rep['case']
     fc = [c for c in files_for(run) if c.label == case['file']][0]
     A = [dict({'r': e[0], 'op': e[1], 'a': e[2]}, **({'slice': True} if len(e) > 3 else {})) for e in case['history']]
-    answers = session.eval_calls([fc], [(0, c['op'] if c['op'] not in ('close', 'get_tracefield_values') else 'read_volume',
-                                         c['a'] if c['op'] not in ('close', 'get_tracefield_values') else []) for c in A], run)
+    answers = session.eval_calls([fc], [(0, c['op'] if c['op'] not in ('close', 'get_tracefield_values', 'read_variant_headers') else 'read_volume',
+                                         c['a'] if c['op'] not in ('close', 'get_tracefield_values', 'read_variant_headers') else []) for c in A], run)
     replay_history(run, fc, A, answers, tuple(range(1, len(A) + 1)), case['preload'], case['K'], rep['clause'])
